@@ -266,6 +266,12 @@ def gen(seed, tier):
     cases.append("D " + hx(b"d1:k" * 3000))
     cases.append("D " + hx(b"l" * 3000 + b"e" * 3000))
     stats["D_depth"] += 3
+    # long strings: the stream reader reads in 64 KiB chunks, the writers flush every 1024 bytes
+    for n in (1023, 1024, 1025, 2049, 65535, 65536, 65537, 131072, 131073, 200001):
+        body = bytes((i * 7 + (i >> 8) * 13 + n) & 0xff for i in range(n))
+        cases.append("E " + tree_line(body))
+        cases.append("E " + tree_line(("M", [(b"k", [body, 5]), (body[:70000] if n > 70000 else body, b"v")])))
+        stats["E_long_string"] = stats.get("E_long_string", 0) + 2
     ntrees = 400 if tier == "quick" else 4000
     for _ in range(ntrees):
         t = rand_tree(r, r.choice((1, 2, 3, 4, 6)))
